@@ -58,6 +58,7 @@ type mgrHarness struct {
 	pcancel context.CancelFunc
 	start   string
 	ml      [][]any
+	mlrm    []func()
 	wh      map[int]bool
 	wcalled []bool
 	wres    [][]any
@@ -91,6 +92,7 @@ func newMgrHarness(jb job) (*mgrHarness, error) {
 	}
 	h.m = m
 	h.ml = make([][]any, jb.NML)
+	h.mlrm = make([]func(), jb.NML)
 	nw := len(jb.WH) + len(jb.WS)
 	for _, w := range jb.WH {
 		h.wh[w-1] = true
@@ -143,10 +145,17 @@ func (h *mgrHarness) apply(label string, n int, e string) error {
 		return sendTo(h.svcs[n-1].dgate, struct{}{}, "manager's service listener")
 	case "AddML":
 		l := n - 1
-		h.m.AddListener(services.NewManagerListener(
+		h.mlrm[l] = h.m.AddListener(services.NewManagerListener(
 			func() { h.ml[l] = append(h.ml[l], []any{"Healthy", 0}) },
 			func() { h.ml[l] = append(h.ml[l], []any{"Stopped", 0}) },
 			func(s services.Service) { h.ml[l] = append(h.ml[l], []any{"Failure", h.index(s)}) }))
+	case "RemoveML":
+		done := false
+		go func() { h.mlrm[n-1](); done = true }()
+		synctest.Wait()
+		if !done {
+			return fmt.Errorf("remove-function-of-manager-listener-blocked")
+		}
 	case "Await":
 		w := n - 1
 		h.wcalled[w] = true
